@@ -325,6 +325,8 @@ func classifyRecoveryErr(err error) string {
 func classifyNextErr(err error) string {
 	s := err.Error()
 	switch {
+	case strings.Contains(s, "retry certificate fromBlock"):
+		return "retry_from_mismatch"
 	case strings.Contains(s, "is not closed"):
 		return "not_closed"
 	case strings.Contains(s, "error getting last settled certificate"), strings.Contains(s, "none settled certificate"):
@@ -688,6 +690,31 @@ func genScenarios(rng *hlib.Rng, n int, thorough bool) []In {
 								localHist: hist, keep: rng.Bool(), hdrPrev: rng.Intn(8) != 0,
 								start: hlib.Pick(rng, uint64(0), 0, 5, 1000), viaStatus: rng.Bool()}))
 						}
+					}
+				}
+			}
+		}
+	}
+	// headers that do not report prev_local_exit_root, systematically (the flow then looks for the settled row below):
+	// every (height x class x step x crash point); for InError both with and without local settled history
+	for H := 0; H <= 3; H++ {
+		for _, class := range classes {
+			for _, step := range []string{"idle", "first", "next", "replacement"} {
+				if (step == "first" && H != 0) || (step == "next" && H == 0) {
+					continue
+				}
+				cps := []string{"before_submit", "db_lost"}
+				if step != "idle" {
+					cps = []string{"after_submit_before_store", "after_store", "db_lost"}
+				}
+				for _, cp := range cps {
+					hists := []bool{true, false}
+					if !thorough && class != "in_error" {
+						hists = []bool{rng.Bool()}
+					}
+					for _, hist := range hists {
+						ins = append(ins, scenario(rng, scenParams{H: H, class: class, step: step, cp: cp, metaV: 2,
+							localHist: hist, keep: rng.Bool(), hdrPrev: false, start: hlib.Pick(rng, uint64(0), 5), viaStatus: rng.Bool()}))
 					}
 				}
 			}
